@@ -12,6 +12,7 @@ import random
 import sys
 import time
 import traceback
+import zlib
 from collections import Counter
 
 from simkit import core, env
@@ -114,6 +115,7 @@ class Sim:
         self.last_tx_events = None
         self.last_tx_where = None
         self.checks = 0
+        self.digest = 0
 
     # ------------------------------------------------------------------ helpers
     def _h(self, op, key='h'):
@@ -190,6 +192,8 @@ class Sim:
         for name in names:
             v1 = observe(mol, name)
             v2 = observe(r, name)
+            if name != 'hash':   # hash(str) depends on PYTHONHASHSEED by definition of Python
+                self.digest = zlib.crc32(repr((name, v1)).encode(), self.digest)
             if v1 != v2:
                 bad.append((OBS_INDEX[name], name, v1, v2))
         if bad:
@@ -1140,6 +1144,7 @@ def run_one(i, tier, base):
             out['sigs'].add(hash((_sig_hash(sim2), tuple(sorted(plan.items())))) & 0xffffffffffff)
             out['nontrivial'] += 1
         out['line_events'] += sum(L for _, L in pending)
+    out['digest'] = core.digest([ops, viol, sim.digest, sim.steps, out['crash_points'], out['steps']])
     if i % 97 == 0:
         out['sample'] = {'seed': seed, 'config': {k: v for k, v in cfg.items() if k != 'weights'}, 'ops': ops}
     out['probes'] = probes
@@ -1326,7 +1331,17 @@ def main(argv):
     ap.add_argument('--workers', type=int)
     ap.add_argument('--start', type=int, default=0)
     ap.add_argument('--no-confirm', action='store_true')
+    ap.add_argument('--digest', nargs=2, type=int, metavar=('FROM', 'TO'))
     a = ap.parse_args(argv)
+
+    if a.digest:
+        prewarm()
+        tier = a.tier if a.tier in TIERS else 'quick'
+        out = {}
+        for i in range(a.digest[0], a.digest[1]):
+            out[i] = run_one(i, tier, core.base_seed())['digest']
+        print('DIGESTS ' + json.dumps(out))
+        return core.EXIT_OK
 
     if a.replay:
         v, trace = replay_file(a.replay)
@@ -1460,3 +1475,8 @@ def main(argv):
             print(f'HARNESS-ERROR run={i}\n{e}', file=sys.stderr)
         return core.EXIT_HARNESS
     return exit_code
+
+
+def _digest_worker(i):
+    r = run_one(i, getattr(_digest_worker, 'tier', 'quick'), core.base_seed())
+    return {'digest': r['digest']}
